@@ -472,6 +472,8 @@ def synth_class():
 
         def getDt(self, dXdt):
             t = self.H['time']; k = min(self.pData.n, len(t) - 2)
+            if len(t) > 1 and self.pData.n >= len(t) - 1:      # past the script (values stay at the last row): mean scripted step
+                return float(t[-1] - t[0]) / (len(t) - 1)
             return float(t[k + 1] - t[k]) if len(t) > 1 else 1.0
 
         def _calculateDependentTerms(self, t, x):
